@@ -134,6 +134,30 @@ fn main() {
         n += 1;
         if iso(&dd, &dn) || iso(&dn, &dd) { println!("{{\"mismatch\":\"blind to the graph name (default vs named)\"}}"); std::process::exit(1); }
     }
+    // blank nodes nested two levels deep in quoted triples (not a direct component of the outer one): renamed copies
+    // are isomorphic, merging two of them or changing a ground term nearby is noticed
+    {
+        use sophia_isomorphism::isomorphic_graphs;
+        let q = |s: T, p: T, o: T| SimpleTerm::Triple(Box::new([s, p, o]));
+        let deep_s = |x: &str| q(q(bn(x), iri("x:p"), iri("x:o")), iri("x:q"), iri("x:r"));
+        let deep_o = |x: &str| q(iri("x:r"), iri("x:q"), q(iri("x:s"), iri("x:p"), bn(x)));
+        let deep3 = |x: &str| q(iri("x:a"), iri("x:q"), q(iri("x:b"), iri("x:q"), q(bn(x), iri("x:p"), iri("x:o"))));
+        for (name, f) in [("subject side", &deep_s as &dyn Fn(&str) -> T), ("object side", &deep_o), ("three levels", &deep3)] {
+            for holder_blank in [false, true] {
+                let mk = |x: &str, y: &str| -> Vec<[T; 3]> { vec![[if holder_blank { bn(y) } else { iri("x:h") }, iri("x:p"), f(x)], [iri("x:h2"), iri("x:p"), f(y)]] };
+                let (g1, g2, g3) = (mk("x", "y"), mk("u", "v"), mk("v", "u"));
+                n += 1;
+                for (a, b) in [(&g1, &g2), (&g1, &g3)] {
+                    if !isomorphic_graphs(a, b).unwrap() || !isomorphic_graphs(b, a).unwrap() { println!("{{\"mismatch\":\"false negative: blank nodes nested two levels deep renamed by a bijection\",\"detail\":{:?},\"a\":\"{:?}\",\"b\":\"{:?}\"}}", name, a, b); std::process::exit(1); }
+                    let d1: Vec<Spog<T>> = a.iter().map(|t| (t.clone(), Some(iri("x:g")))).collect();
+                    let d2: Vec<Spog<T>> = b.iter().map(|t| (t.clone(), Some(iri("x:g")))).collect();
+                    if !iso(&d1, &d2) || !iso(&d2, &d1) { println!("{{\"mismatch\":\"false negative (dataset): blank nodes nested two levels deep renamed by a bijection\",\"detail\":{:?}}}", name); std::process::exit(1); }
+                }
+                let merged = mk("u", "u");
+                if !holder_blank && (isomorphic_graphs(&g1, &merged).unwrap() || isomorphic_graphs(&merged, &g1).unwrap()) { println!("{{\"mismatch\":\"blind to merged blank nodes nested two levels deep\",\"detail\":{:?}}}", name); std::process::exit(1); }
+            }
+        }
+    }
     // list-like containers holding a statement more than once: every arrangement of {A, A, B} (B differing from A
     // only in a blank node label) is isomorphic to every other arrangement and to renamed copies, as graphs and as
     // datasets (default and named graph)
